@@ -788,9 +788,20 @@ def check_topo(ctx):
             sorts = [v for v in defs.get(txt(tasks_arg), [])
                      if isinstance(v, ast.Call) and call_name(v) ==
                      'topological_sort']
+            # re-bindings that are the list handed back by the examining
+            # function itself (directly or through a local: `blocked =
+            # self._enqueue(tasks_left, ..)` ... `tasks_left = blocked`)
+            def from_examiner(val, depth=0):
+                if isinstance(val, ast.Call) and call_name(val) in (
+                        'topological_sort', func.name):
+                    return True
+                if isinstance(val, ast.Name) and depth < 3 and defs.get(
+                        val.id):
+                    return all(from_examiner(v, depth + 1)
+                               for v in defs[val.id])
+                return False
             others = [v for v in defs.get(txt(tasks_arg), [])
-                      if not (isinstance(v, ast.Call) and call_name(v) in (
-                          'topological_sort', func.name))]
+                      if not from_examiner(v)]
             if not sorts:
                 ctx.undecided('TOPO', caller, f'{txt(tasks_arg)} is not the '
                               f'result of a topological_sort()',
